@@ -78,12 +78,13 @@ def build(df, t, emb, variant=0):
         m3 = {"lo": m["lo"] + [3], "c": m["c"] + [5], "n": m["n"] + [1]}
         mesh = lat.mesh_of(df, m3, emb, dims=("x", "y", "z"))
         f3 = df.Field(mesh, nvdim=3, value=arr[:, :, None, :], valid=valid[:, :, None])
-        return f3.sel("z")
+        return fldmod.lived(f3.sel("z"), sum(n) + nv + variant)
     mesh = lat.mesh_of(df, m, emb, dims=dims_for(nd))
     kw = {}
     if nd == 2 and nv == 3:
         kw["vdim_mapping"] = {"x": "x", "y": "y", "z": None}
-    return df.Field(mesh, nvdim=nv, value=arr, valid=valid, **kw)
+    # the texture has a past (derived fields used, values written in place with reads in between, mesh moved away and back)
+    return fldmod.lived(df.Field(mesh, nvdim=nv, value=arr, valid=valid, **kw), sum(n) + nv + variant)
 
 
 def s3_of(t):
